@@ -300,6 +300,28 @@ def rules(ck, P):
             if n.get("k") in ("assign", "assignop") and any(_self_field(n["l"], c) for c in counter):
                 ok = n.get("k") == "assignop" and n.get("op") == "+=" and (ir.const_eval(n["r"], {}) or 0) > 0
                 ck.check(ok, "R1", b["q"] + "|counter", "stamp counter only increases", "stamp counter is reset or decreased", ir.loc(n))
+    # R1 for add: a new entry is stamped with a counter value that no earlier access can have received — the counter is incremented BEFORE its
+    # value is stored with the entry (get increments before stamping too; increment-after in one of them gives two entries the same stamp)
+    adders = [b for b in methods if b["q"].endswith("::add")]
+    if ck.anchor("R1", "add", adders, 1):
+        b = adders[0]
+
+        def order_(n):
+            for c in ir.children(n):
+                yield from order_(c)
+            yield n
+        seq = list(order_(b["body"]))
+        pos = {id(n): i for i, n in enumerate(seq)}
+        incs = [n for n in seq if n.get("k") == "assignop" and n.get("op") == "+=" and any(_self_field(n["l"], c) for c in counter)]
+        # where the stamp is stored: a tuple (value, <counter>) handed to a map-writing call
+        uses = []
+        for n in seq:
+            if n.get("k") == "tup" and len(n.get("es", ())) == 2 and any(any(_self_field(y, c) for c in counter) for y in ir.walk_nodes(n["es"][1]) if y.get("k") == "field"):
+                uses.append(n)
+        ok_add = len(incs) == 1 and len(uses) >= 1 and all(pos[id(incs[0])] < pos[id(u)] for u in uses)
+        ck.check(ok_add, "R1", b["q"] + "|stamp", "add increments the counter before the new entry's stamp is taken from it",
+                 "add stores the stamp %s the counter is incremented (increments: %d): a lookup hit followed by an insertion gives two entries the same stamp, "
+                 "and an eviction can then remove the entry that was used last" % ("before" if incs and uses else "without a clear order to where", len(incs)), ir.loc(b))
     getters = [b for b in methods if b["q"].endswith("::get")]
     if ck.anchor("T1", "get", getters, 1):
         b = getters[0]
